@@ -206,6 +206,29 @@ def c05(tier, seed):
     return r
 
 
+def oracle_c05_cli_threshold(n):
+    """the comparator the command line builds for `--merge percent_<n>` accepts a pair exactly at n % and rejects one just below"""
+    from json_to_models.cli import Cli
+    cmp_ = Cli.MODEL_CMP_MAPPING["percent"](str(n))
+    whole = set(range(100))
+    if not cmp_.cmp(set(range(n)), whole):
+        return f"--merge percent_{n}: a pair sharing exactly {n} of 100 keys is rejected"
+    if n > 0 and cmp_.cmp(set(range(n - 1)), whole):
+        return f"--merge percent_{n}: a pair sharing {n - 1} of 100 keys is accepted"
+    num = Cli.MODEL_CMP_MAPPING["number"](str(n))
+    if not num.cmp(set(range(n)), whole) or (n > 0 and num.cmp(set(range(n - 1)), whole)):
+        return f"--merge number_{n}: wrong decision at the threshold"
+    return None
+
+
+@bounded("C05", "thresholds_as_configured_by_the_cli")
+def c05_cli_thr(tier, seed):
+    r = run_cases(list(range(0, 101)), oracle_c05_cli_threshold, "c05_cli_thr")
+    r["bound"] = "percent_0..percent_100 and number_0..number_100 as converted by Cli.MODEL_CMP_MAPPING, each on a pair exactly at and one key below the threshold (100-key union)"
+    r["function"] = "Cli.MODEL_CMP_MAPPING converters + ModelFields*.cmp"
+    return r
+
+
 @bounded("C05", "comparator_thresholds")
 def c05_thr(tier, seed):
     keys = ["a", "b", "c", "d"]
@@ -415,6 +438,11 @@ HIST_INPUTS = [
     ({"Root": [{"s": "a"}, {"s": "b"}]}, "attrs", "flat", {}),
     ({"Root": [{"s": "a"}, {"s": "b"}]}, "dataclasses", "flat", {"types_style": "literal_off"}),
     ({"Root": [{"s": "a"}, {"s": "b"}]}, "dataclasses", "flat", {}),
+    # explicit registries that are edited (a pseudo-type removed / a replacement added), and the module-level default registry
+    ({"Root": [{"p": "1"}, {"p": "1.5"}]}, "attrs", "flat", {"registry": "no_float"}),
+    ({"Root": [{"p": "1"}, {"p": "1.5"}, {"q": "true"}]}, "attrs", "flat", {"registry": "default"}),
+    ({"Root": [{"p": "1"}, {"p": "true"}]}, "attrs", "flat", {"registry": "bool_replaces_int"}),
+    ({"Root": [{"p": "1"}, {"p": "1.5"}]}, "pydantic", "flat", {"registry": "fresh"}),
 ]
 
 
@@ -427,8 +455,19 @@ def run_one(i):
     if kw.get("types_style") == "literal_on":
         from json_to_models.dynamic_typing import StringLiteral
         kw["types_style"] = {StringLiteral: {StringLiteral.TypeStyle.use_literals: True}}
+    infer_kw = {}
+    which = kw.pop("registry", None)
+    if which is not None:
+        from json_to_models.dynamic_typing import registry as default_registry
+        r = fresh_registry()
+        if which == "no_float":
+            r.remove(FloatString)
+        elif which == "bool_replaces_int":
+            r.add(replace_types=(IntString,), cls=BooleanString)
+            r.remove(BooleanString)
+        infer_kw["str_registry"] = default_registry if which == "default" else r
     try:
-        return pipeline(data, fw, layout, gen_kwargs=kw)[2]
+        return pipeline(data, fw, layout, gen_kwargs=kw, **infer_kw)[2]
     except Exception as e:
         return f"<raised {type(e).__name__}>"
 
@@ -463,7 +502,7 @@ def oracle_c14(seq):
 
 def oracle_c14_rerender(i):
     data, fw, layout, kw = HIST_INPUTS[i]
-    if "types_style" in kw or "meta" in kw:
+    if "types_style" in kw or "meta" in kw or "registry" in kw:
         return None
     reg, gen, roots = infer(data)
     first = render(reg, fw, layout, **kw)
@@ -475,6 +514,41 @@ def oracle_c14_rerender(i):
     if render(reg, fw, layout, **kw) != first:
         return f"rendering input {i} after other frameworks/layouts differs from the first rendering"
     return None
+
+
+def oracle_c14_shared_options(case):
+    """one option dict passed to several renderings: each gives what it gives with a private copy of the same options, and the
+    caller's dict is left as it was"""
+    import copy
+    from json_to_models.dynamic_typing import StringLiteral, StringSerializable
+    order, which = case
+    styles = {
+        "literal_off": {StringLiteral: {StringLiteral.TypeStyle.use_literals: False}},
+        "literal_on": {StringLiteral: {StringLiteral.TypeStyle.use_literals: True}},
+        "empty_inner": {StringLiteral: {}},
+    }
+    shared = copy.deepcopy(styles[which])
+    snapshot = repr(shared)
+    data = {"Root": [{"s": "a", "n": "1"}, {"s": "b", "n": "2.5"}]}
+    reg, gen, roots = infer(data)
+    for fw in order:
+        expected = render(reg, fw, "flat", types_style=copy.deepcopy(styles[which]))
+        got = render(reg, fw, "flat", types_style=shared)
+        if got != expected:
+            return f"{fw} rendered after {order[:order.index(fw)]} with a shared types_style dict differs from a rendering with a private copy"
+        if repr(shared) != snapshot:
+            return f"rendering {fw} modified the caller's types_style dict: {snapshot} -> {repr(shared)}"
+    return None
+
+
+@bounded("C14", "shared_option_dict_across_renderings")
+def c14_shared(tier, seed):
+    orders = [("pydantic", "attrs"), ("attrs", "pydantic"), ("dataclasses", "attrs", "pydantic"), ("pydantic", "dataclasses", "base"), ("attrs", "attrs")]
+    cases = [(o, w) for o in orders for w in ("literal_off", "literal_on", "empty_inner")]
+    r = run_cases(cases, oracle_c14_shared_options, "c14_shared")
+    r["bound"] = "5 orders of 2-3 frameworks x 3 types_style dicts, the same dict object passed to every rendering"
+    r["function"] = "GenericModelCodeGenerator.__init__ (option resolution)"
+    return r
 
 
 @bounded("C14", "history_independence")
@@ -531,6 +605,72 @@ def oracle_c15(case):
     return None
 
 
+def oracle_c15_cli(case):
+    """Cli objects used concurrently (one per thread, parse then run): each prints what it prints when run alone.  Barriers force the
+    parse-to-run windows to overlap; the header (which echoes the process-wide sys.argv) is stripped."""
+    import io
+    import contextlib
+    import tempfile
+    import shutil
+    from json_to_models.cli import Cli
+    policies, = case
+    d = tempfile.mkdtemp(prefix="j2m_c15_")
+    try:
+        p = os.path.join(d, "in.json")
+        # p and q share 3 of 5 field names: merged under percent_50 / number_3, kept apart under exact / percent_90
+        json.dump({"p": {"a": 1, "b": 2, "c": 3, "d": 4}, "q": {"a": 1, "b": 2, "c": 3, "e": 5}}, open(p, "w"))
+
+        def strip(text):
+            end = text.index('\n"""\n', 4)
+            return text[end + 5:]
+
+        def alone(pol):
+            c = Cli()
+            c.parse_args(["-m", "Root", p, "--merge"] + pol.split())
+            return strip(c.run())
+        expected = [alone(pol) for pol in policies]
+        n = len(policies)
+        results = [None] * n
+        errors = []
+        parsed = threading.Barrier(n)
+
+        def work(k):
+            try:
+                c = Cli()
+                c.parse_args(["-m", "Root", p, "--merge"] + policies[k].split())
+                parsed.wait(timeout=20)
+                results[k] = strip(c.run())
+            except Exception as e:
+                errors.append(f"{type(e).__name__}: {e}")
+        old = sys.getswitchinterval()
+        sys.setswitchinterval(1e-6)
+        try:
+            ts = [threading.Thread(target=work, args=(k,)) for k in range(n)]
+            for t in ts:
+                t.start()
+            for t in ts:
+                t.join(60)
+        finally:
+            sys.setswitchinterval(old)
+        if errors:
+            return f"concurrent Cli pipeline failed: {errors[0]}"
+        for k in range(n):
+            if results[k] != expected[k]:
+                return f"Cli pipeline with --merge {policies[k]} printed different models when run concurrently with {list(policies)}"
+    finally:
+        shutil.rmtree(d, ignore_errors=True)
+    return None
+
+
+@bounded("C15", "concurrent_cli_objects")
+def c15_cli(tier, seed):
+    cases = [(("exact", "percent_50"),), (("percent_50", "exact"),), (("percent_90", "number_3", "exact"),), (("number_3", "exact", "percent_50", "percent_90"),)]
+    r = run_cases(cases * (3 if tier == "quick" else 30), oracle_c15_cli, "c15_cli")
+    r["bound"] = "2-4 Cli objects (one per thread) with different --merge policies on an input where the policies disagree, parse-to-run windows forced to overlap, 3 (quick) / 30 (thorough) repetitions"
+    r["function"] = "Cli.__init__ / parse_args / set_args / run"
+    return r
+
+
 @bounded("C15", "threads_single_and_concurrent")
 def c15(tier, seed):
     rng = random.Random(seed)
@@ -547,7 +687,7 @@ def c15(tier, seed):
     return r
 
 
-ORACLES = {"c05_history": oracle_c05_history, "c05": lambda c: oracle_c05(tuple(c)), "c05_thr": lambda c: oracle_c05_thresholds(tuple(c)), "c09_string": lambda c: oracle_c09_string(tuple(c)),
+ORACLES = {"c15_cli": lambda c: oracle_c15_cli((tuple(c[0]),)), "c14_shared": lambda c: oracle_c14_shared_options((tuple(c[0]), c[1])), "c05_cli_thr": oracle_c05_cli_threshold, "c05_history": oracle_c05_history, "c05": lambda c: oracle_c05(tuple(c)), "c05_thr": lambda c: oracle_c05_thresholds(tuple(c)), "c09_string": lambda c: oracle_c09_string(tuple(c)),
            "c09_resolve": lambda c: oracle_c09_resolve((c[0], grammar("quick", 0))), "c06": lambda c: oracle_c06(tuple(c)),
            "c14": oracle_c14, "c14_rerender": oracle_c14_rerender, "c15": lambda c: oracle_c15(tuple(c)),
            "c14_cli": lambda c: oracle_c14_cli(tuple(c))}
